@@ -590,6 +590,59 @@ def rule_nameiter(ctx, sig, body, arg):
     return sig, body[:ct[j].end] + f' {name}:' + body[ct[j].end:]
 
 
+def rule_setinto(ctx, sig, body, arg):
+    """@rule setinto <occurrence>: `for X in EXPR {` (EXPR a HashSet taken by value, e.g. `set.clone()`) ->
+    `let tmp = EXPR; for X in tmp.iter() {` with every use of X in the loop body replaced by `(*X)`.
+    Iterating a set by value yields exactly the elements that iterating it by reference yields (std: both walk the same
+    table); vstd specifies `HashSet::iter` but has no specification for `hash_set::IntoIter`. Only valid when the body
+    does not move X (checked: X must not be passed by value to a call or bound by `let`)."""
+    occ = int(arg.split()[0])
+    toks = tokenize(body)
+    ct = code_tokens(toks)
+    fors = [i for i, t in enumerate(ct) if t.kind == 'ident' and t.text == 'for' and ct[i - 1].text in (';', '{', '}')]
+    if occ < 1 or occ > len(fors):
+        raise RuleError(f'for-loop {occ} not found')
+    i = fors[occ - 1]
+    if ct[i + 1].kind != 'ident' or not (ct[i + 2].kind == 'ident' and ct[i + 2].text == 'in'):
+        raise RuleError('setinto: loop pattern must be a single identifier')
+    x = ct[i + 1].text
+    k = i + 3
+    while ct[k].text != '{':
+        if ct[k].text in ('(', '['):
+            k = match_close(ct, k)
+        k += 1
+    close = match_close(ct, k)
+    expr = body[ct[i + 3].pos:ct[k].pos].strip()
+    inner = body[ct[k].end:ct[close].pos]
+    # uses of X in the body: only as an operand of == / != or behind & or a method call on a reference
+    uses = [t for t in ct[k + 1:close] if t.kind == 'ident' and t.text == x]
+    for u in uses:
+        idx = ct.index(u)
+        prev, nxt = ct[idx - 1].text, ct[idx + 1].text
+        if not (nxt in ('==', '!=') or prev in ('==', '!=', '&')):
+            raise RuleError(f'setinto: use of `{x}` that may move it (near `{prev} {x} {nxt}`)')
+    inner2 = re.sub(r'\b' + re.escape(x) + r'\b', f'(*{x})', inner)
+    tmp = f'setinto__{occ}'
+    new = f'let {tmp} = {expr};\n                for {x} in {tmp}.iter() {{' + inner2
+    ctx.note('R-setinto', f'for {x} in {expr}', f'let {tmp} = {expr}; for {x} in {tmp}.iter()  [uses of {x} -> (*{x})]')
+    return sig, body[:ct[i].pos] + new + body[ct[close].pos:]
+
+
+def rule_pairclone(ctx, sig, body, arg):
+    """@rule pairclone <ident>: `<ident>.clone()` for a variable holding a pair -> `(<ident>.0.clone(), <ident>.1.clone())`
+    (Verus has no built-in Clone instance for tuples; Clone of a pair is componentwise)."""
+    x = arg.strip()
+    pat = re.compile(r'\b' + re.escape(x) + r'\s*\.\s*clone\(\)')
+    ms = list(pat.finditer(body))
+    if not ms:
+        raise RuleError(f'`{x}.clone()` not found')
+    for m in reversed(ms):
+        new = f'({x}.0.clone(), {x}.1.clone())'
+        ctx.note('R-tupleclone', m.group(0), new)
+        body = body[:m.start()] + new + body[m.end():]
+    return sig, body
+
+
 def rule_nocallback(ctx, sig, body, arg):
     """R-callback (call sites of the public wrappers): the argument `&mut dont_track_progress` (the no-op observer) is dropped,
     matching the removal of the `progress_callback` parameter from the callee."""
